@@ -6,7 +6,7 @@ name = sys.argv[1].replace('/', '-')
 dst = '/verif/seeded/' + name
 os.makedirs(dst, exist_ok=True)
 shutil.copy(src + '/patch.diff', dst + '/patch.diff')
-shutil.copy(src + '/demo_test.go', dst + '/demo_test.go.txt')   # .txt: must not be compiled as part of anything under /verif
+shutil.copy(src + '/demo_test.go', dst + '/demo_test.go')
 try:
     meta = json.load(open(src + '/meta.json'))
 except Exception as e:
